@@ -37,14 +37,21 @@ def main():
     assert rc == 0, out
     meta = {'id': mid, 'kind': 'behaviour-preserving refactoring (the property still holds); every check must stay silent',
             'source': 'independent sub-agent given only the property record and a scratch worktree', 'note': note}
+    # re-runs on a later version of the checks: REFACTOR_SKIP_TESTS=1 keeps the recorded test-suite
+    # comparison (patch and /repo are unchanged), REFACTOR_PROPS=C11,C12 re-runs only those checks
+    old_meta = {}
+    if os.path.exists('/verif/seeded/%s/meta.json' % mid):
+        old_meta = json.load(open('/verif/seeded/%s/meta.json' % mid))
+    skip_tests = os.environ.get('REFACTOR_SKIP_TESTS') == '1' and 'tests_same_as_unchanged' in old_meta
+    props = tuple(os.environ.get('REFACTOR_PROPS', 'C11,C12,C14,C15').split(','))
     try:
-        base = tests(wt)
+        base = None if skip_tests else tests(wt)
         rc, out = sh('git apply %s' % os.path.abspath(patch), cwd=wt)
         meta['patch_applies'] = rc == 0
         assert rc == 0, out
-        meta['tests_same_as_unchanged'] = tests(wt) == base
-        meta['checks'] = {}
-        for p in ('C11', 'C12', 'C14', 'C15'):
+        meta['tests_same_as_unchanged'] = old_meta['tests_same_as_unchanged'] if skip_tests else tests(wt) == base
+        meta['checks'] = dict(old_meta.get('checks', {})) if props != ('C11', 'C12', 'C14', 'C15') else {}
+        for p in props:
             e = dict(os.environ, VERIF_REPO=wt, VERIF_OUT=wt + '/_out', VERIF_EVIDENCE_DIR=wt + '/_ev')
             rc, out = sh('%s /verif/run.py check %s quick' % (PY, p), cwd='/verif', env=e)
             meta['checks'][p] = {'exit': rc, 'silent': rc == 0 and 'VIOLATION' not in out,
@@ -56,8 +63,8 @@ def main():
             shutil.copy(patch, os.path.join(dst, 'patch.diff'))
         json.dump(meta, open(os.path.join(dst, 'meta.json'), 'w'), indent=1)
         print(mid, 'tests_same=%s' % meta['tests_same_as_unchanged'],
-              {k: v['silent'] for k, v in meta['checks'].items()})
-        for v in meta['checks'].values():
+              {k: meta['checks'][k]['silent'] for k in props})
+        for v in (meta['checks'][k] for k in props):
             for x in v['violations']:
                 print('   ', x)
     finally:
